@@ -155,6 +155,59 @@ func runC03(c *Ctx) {
 			}
 		}
 	}
+	// 3c. the limits with a compression map: a name whose suffix is already in the message is written as labels
+	//     plus a pointer; the packer must take the same decision as without compression and the unpacker must
+	//     read back what was written
+	for i := 0; i < c.Scale(400, 8000); i++ {
+		suffix := genLabelsNear(r, 0)
+		for len(wireOf(suffix)) > 200 {
+			suffix = suffix[1:]
+		}
+		if len(suffix) == 0 {
+			continue
+		}
+		sl := len(wireOf(suffix))
+		for _, total := range []int{253, 254, 255, 256, 257} {
+			need := total - sl // octets of the prefix labels (length octets included)
+			if need < 2 {
+				continue
+			}
+			var pre [][]byte
+			for need > 0 {
+				n := 63
+				if need-1 < n {
+					n = need - 1
+				}
+				if need-1-n == 1 {
+					n--
+				}
+				l := make([]byte, n)
+				for j := range l {
+					l[j] = byte('a' + r.Intn(26))
+				}
+				pre = append(pre, l)
+				need -= 1 + n
+			}
+			full := append(append([][]byte{}, pre...), suffix...)
+			if len(wireOf(full)) != total {
+				continue
+			}
+			name := spell(full, r, 0)
+			buf := make([]byte, 1024)
+			comp := map[string]int{}
+			o1, e1 := dns.PackDomainName(spell(suffix, r, 0), buf, 12, comp, true)
+			if e1 != nil {
+				continue
+			}
+			o2, e2 := dns.PackDomainName(name, buf, o1, comp, true)
+			in := fmt.Sprintf("total=%d suffix=%d name=%s", total, sl, hxs(name))
+			c.Pred("limits-compressed", "compressed-same-limit", in, (e2 == nil) == (total <= 255), fmt.Sprint(e2), fmt.Sprint("accepted iff total <= 255: ", total), true)
+			if e2 == nil {
+				back, _, e3 := dns.UnpackDomainName(buf[:o2], o1)
+				c.Pred("limits-compressed", "compressed-reads-back", in, e3 == nil && back == name, fmt.Sprint(back, e3), name, true)
+			}
+		}
+	}
 	// 4. hostile wire (pointers, reserved bits) -> correspondence of the decoder
 	n = c.Scale(20000, 300000)
 	for i := 0; i < n; i++ {
